@@ -1,9 +1,230 @@
-import LLTD.Model.Block
-import LLTD.Spec.Block
+/-
+  C06 — An Emit is executed descriptor by descriptor and then acknowledged.
+-/
+import LLTD.Lemmas.Obs
+import LLTD.Lemmas.Safe
 
 namespace LLTD.C06
 open LLTD LLTD.Spec
 
-theorem placeholder_layout : X.sizeofDemux = 32 := by decide
+/-- no platform fault is scheduled -/
+structure NoFault (w : World) : Prop where
+  m  : w.failMalloc = []
+  s  : w.failSend = []
+  ma : w.failMallocAll = false
+  sa : w.failSendAll = false
+
+theorem malloc_nf (w : World) (n : Nat) (h : NoFault w) : (w.malloc n).2 = true ∧ NoFault (w.malloc n).1 := by
+  unfold World.malloc
+  simp only [h.ma, h.m, List.contains_nil, Bool.or_self, Bool.false_eq_true, if_false]
+  refine ⟨trivial, ?_⟩
+  constructor <;> simp [h.m, h.s, h.ma, h.sa]
+
+theorem send_nf (w : World) (h : NoFault w) : w.send.2 = true ∧ NoFault w.send.1 := by
+  unfold World.send
+  simp only [h.sa, h.s, List.contains_nil, Bool.or_self, Bool.not_false]
+  refine ⟨trivial, ?_⟩
+  constructor <;> simp [h.m, h.s, h.ma, h.sa]
+
+theorem free_nf (w : World) (n : Nat) (h : NoFault w) : NoFault (w.free n) := by
+  unfold World.free; constructor <;> simp [h.m, h.s, h.ma, h.sa]
+
+/-- the frames sendProbeMsg builds -/
+def probeFrame (c : Cfg) (src dst : Mac) (ty : Nat) : List Nat :=
+  lltdHeader 0 dst src dst c.ourMac 0 (if ty = 1 then X.opProbe else X.opTrain) X.tosDiscovery
+def ackFrame (c : Cfg) (st : St) : List Nat :=
+  lltdHeader 0 st.mapperApparent c.ourMac st.mapperReal c.ourMac st.seq X.opAck X.tosDiscovery
+
+/-- without faults sendProbeMsg waits the pause, sends the Probe/Train, and (for the last descriptor) the ACK -/
+theorem sendProbeMsg_nf (c : Cfg) (st : St) (w : World) (fx : List Fx) (src dst : Mac) (pause ty : Nat) (ack : Bool) (h : NoFault w) :
+    (sendProbeMsg c st w fx src dst pause ty ack).2 =
+      fx ++ [Fx.sleep pause, Fx.send true c.idx (probeFrame c src dst ty)] ++ (if ack then [Fx.send true c.idx (ackFrame c st)] else []) ∧
+    NoFault (sendProbeMsg c st w fx src dst pause ty ack).1 := by
+  obtain ⟨hm, hw1⟩ := malloc_nf w X.sizeofDemux h
+  obtain ⟨hs1, hw2⟩ := send_nf _ hw1
+  obtain ⟨hs2, hw3⟩ := send_nf _ hw2
+  unfold sendProbeMsg
+  simp only [hm, Bool.not_true, Bool.false_eq_true, if_false, sendFx, hs1]
+  cases ack with
+  | true =>
+    simp only [if_true, hs2]
+    exact ⟨by simp [probeFrame, ackFrame], free_nf _ _ hw3⟩
+  | false =>
+    simp only [Bool.false_eq_true, if_false]
+    exact ⟨by simp [probeFrame], free_nf _ _ hw2⟩
+
+/-- descriptor `i` of the received Emit, as the loop reads it -/
+structure DescAt (img : List Nat) (i : Nat) where
+  ty : Nat := byteAt img (34 + 14 * i)
+  pause : Nat := byteAt img (35 + 14 * i)
+  src : Mac := slice img (36 + 14 * i) 6
+  dst : Mac := slice img (42 + 14 * i) 6
+
+def descFx (c : Cfg) (st : St) (img : List Nat) (n i : Nat) : List Fx :=
+  [Fx.sleep (byteAt img (35 + 14 * i)), Fx.send true c.idx (probeFrame c (slice img (36 + 14 * i) 6) (slice img (42 + 14 * i) 6) (byteAt img (34 + 14 * i)))] ++
+  (if i + 1 = n then [Fx.send true c.idx (ackFrame c st)] else [])
+
+/-- the descriptor loop, fault-free, all kinds 0/1, everything inside the image:
+    sleep + Probe/Train per descriptor in order, the ACK after the last one -/
+theorem emitLoop_exact (c : Cfg) (st : St) (img : List Nat) (n : Nat) (hfit : 34 + 14 * n ≤ img.length) (hn : 14 * n < 65536)
+    (hk : ∀ i < n, byteAt img (34 + 14 * i) ≤ 1) :
+    ∀ (k i : Nat) (w : World) (fx : List Fx), i + k = n → NoFault w →
+      (emitLoop c st img n k i w fx).2.1 = fx ++ ((List.range' i k).flatMap (descFx c st img n)) ∧
+      (emitLoop c st img n k i w fx).2.2 = none := by
+  intro k
+  induction k with
+  | zero => intro i w fx _ _; simp [emitLoop]
+  | succ k ih =>
+    intro i w fx hik hw
+    have hlt : i * X.sizeofEmitee % u16 = 14 * i := by
+      simp only [X.sizeofEmitee_val]; rw [Nat.mod_eq_of_lt (by unfold u16; omega)]; omega
+    have hrd : rdOk img (X.sizeofDemux + X.sizeofEmitHdr + i * X.sizeofEmitee % u16) X.sizeofEmitee = true := by
+      rw [hlt]; apply rdOk_of_le; simp only [X.sizeofDemux_val, X.sizeofEmitHdr_val, X.sizeofEmitee_val]; omega
+    rw [emitLoop]
+    simp only [hrd, Bool.not_true, Bool.false_eq_true, if_false]
+    rw [hlt]
+    have hoff : X.sizeofDemux + X.sizeofEmitHdr + 14 * i = 34 + 14 * i := by simp only [X.sizeofDemux_val, X.sizeofEmitHdr_val]
+    simp only [hoff, X.offEmiteeType_val, X.offEmiteePause_val, X.offEmiteeSrc_val, X.offEmiteeDst_val, Nat.add_zero]
+    have hty := hk i (by omega)
+    have hty' : byteAt img (34 + 14 * i) = 1 ∨ byteAt img (34 + 14 * i) = 0 := by omega
+    simp only [hty', if_true]
+    have hsp := sendProbeMsg_nf c st w fx (slice img (34 + 14 * i + 2) 6) (slice img (34 + 14 * i + 8) 6)
+      (byteAt img (34 + 14 * i + 1)) (byteAt img (34 + 14 * i)) (decide (i + 1 = n)) hw
+    obtain ⟨hfx, hw'⟩ := hsp
+    have := ih (i + 1) _ (sendProbeMsg c st w fx (slice img (34 + 14 * i + 2) 6) (slice img (34 + 14 * i + 8) 6)
+      (byteAt img (34 + 14 * i + 1)) (byteAt img (34 + 14 * i)) (decide (i + 1 = n))).2 (by omega) hw'
+    refine ⟨?_, this.2⟩
+    rw [this.1, hfx, List.range'_succ, List.flatMap_cons]
+    have e1 : 34 + 14 * i + 1 = 35 + 14 * i := by omega
+    have e2 : 34 + 14 * i + 2 = 36 + 14 * i := by omega
+    have e8 : 34 + 14 * i + 8 = 42 + 14 * i := by omega
+    simp only [descFx, e1, e2, e8, decide_eq_true_eq, List.append_assoc]
+
+/-- THE EMIT THEOREM (model level): n ≥ 1 descriptors that fit, kinds 0/1, no faults ⇒ exactly the specified
+    sequence of port calls, in descriptor order, ACK last -/
+theorem emit_exact (c : Cfg) (w : World) (st : St) (img : List Nat) (hc : CfgOk c) (hmtu : c.failMtu = false)
+    (hlen : c.mtu ≤ img.length) (hw : NoFault w)
+    (hfit : 34 + 14 * unbe (slice img 32 2) ≤ c.mtu) (hk : ∀ i < unbe (slice img 32 2), byteAt img (34 + 14 * i) ≤ 1) :
+    let n := unbe (slice img 32 2)
+    let st' := setActiveMapper { st with seq := fSeq img } (fRealSrc img) (fEthSrc img)
+    (parseEmit c w st img).fx = (List.range n).flatMap (descFx c st' img n) ∧ (parseEmit c w st img).fault = none := by
+  have hlo := hc.mtuLo
+  have hhi := hc.mtuHi
+  simp only []
+  unfold parseEmit
+  have hg : ¬ (c.failMtu = true ∨ c.mtu < X.sizeofDemux + X.sizeofEmitHdr) := by
+    simp only [hmtu, X.sizeofDemux_val, X.sizeofEmitHdr_val]; intro h; rcases h with h | h
+    · exact Bool.noConfusion h
+    · omega
+  simp only [if_neg hg]
+  have hrd : rdOk img 32 2 = true := by apply rdOk_of_le; omega
+  simp only [X.sizeofDemux_val, X.sizeofEmitHdr_val, X.sizeofEmitee_val, hrd, Bool.not_true, Bool.false_eq_true, if_false]
+  have hcl : ¬ unbe (slice img 32 2) > (c.mtu - 32 - 2) / 14 := by
+    intro hgt
+    have := Nat.div_mul_le_self (c.mtu - 32 - 2) 14
+    have : (c.mtu - 32 - 2) / 14 + 1 ≤ unbe (slice img 32 2) := hgt
+    have h14 : 14 * ((c.mtu - 32 - 2) / 14 + 1) ≤ 14 * unbe (slice img 32 2) := Nat.mul_le_mul_left 14 this
+    have := Nat.lt_div_mul_add (a := c.mtu - 32 - 2) (b := 14) (by omega)
+    omega
+  simp only [if_neg hcl]
+  have := emitLoop_exact c (setActiveMapper { st with seq := fSeq img } (fRealSrc img) (fEthSrc img)) img (unbe (slice img 32 2))
+    (by omega) (by omega) hk (unbe (slice img 32 2)) 0 w [] (by omega) hw
+  rw [this.1, this.2, List.range_eq_range']
+  exact ⟨by simp, rfl⟩
+
+/-- the model's Probe/Train and ACK frames are the specified 32-byte frames -/
+theorem probeFrame_spec (c : Cfg) (src dst : Mac) (ty : Nat) (hty : ty ≤ 1) :
+    probeFrame c src dst ty = probeFrameSpec c.ourMac { kind := ty, pause := 0, src := src, dst := dst } := by
+  unfold probeFrame probeFrameSpec lltdHeader
+  have : ty = 0 ∨ ty = 1 := by omega
+  rcases this with h | h <;> simp [h, be2]
+
+theorem ackFrame_spec (c : Cfg) (st : St) : ackFrame c st = ackFrameSpec c.ourMac st.mapperReal st.mapperApparent st.seq := by
+  unfold ackFrame ackFrameSpec lltdHeader
+  simp [be2]
+
+/-- the bound clause: whatever count the wire declares, one Emit causes at most (MTU-34)/14 Probe/Train frames + 1 ACK -/
+def sendCount (fx : List Fx) : Nat := (fx.filter (fun x => match x with | .send .. => true | _ => false)).length
+
+theorem sendProbeMsg_count (c : Cfg) (st : St) (w : World) (fx : List Fx) (src dst : Mac) (pause ty : Nat) (ack : Bool) :
+    sendCount (sendProbeMsg c st w fx src dst pause ty ack).2 ≤ sendCount fx + 1 + (if ack then 1 else 0) := by
+  unfold sendProbeMsg
+  simp only []
+  repeat' split
+  all_goals (simp [sendCount, List.filter_append, sendFx]; try omega)
+
+theorem emitLoop_count (c : Cfg) (st : St) (img : List Nat) (n : Nat) :
+    ∀ (k i : Nat) (w : World) (fx : List Fx),
+      sendCount (emitLoop c st img n k i w fx).2.1 ≤ sendCount fx + k + (if i < n ∧ n ≤ i + k then 1 else 0) := by
+  intro k
+  induction k with
+  | zero => intro i w fx; simp [emitLoop]
+  | succ k ih =>
+    intro i w fx
+    rw [emitLoop]
+    simp only []
+    split
+    · simp only []; omega
+    · split
+      · generalize hsp : sendProbeMsg c st w fx (slice img (X.sizeofDemux + X.sizeofEmitHdr + i * X.sizeofEmitee % u16 + X.offEmiteeSrc) 6)
+          (slice img (X.sizeofDemux + X.sizeofEmitHdr + i * X.sizeofEmitee % u16 + X.offEmiteeDst) 6)
+          (byteAt img (X.sizeofDemux + X.sizeofEmitHdr + i * X.sizeofEmitee % u16 + X.offEmiteePause))
+          (byteAt img (X.sizeofDemux + X.sizeofEmitHdr + i * X.sizeofEmitee % u16 + X.offEmiteeType)) (decide (i + 1 = n)) = r
+        have h1 := sendProbeMsg_count c st w fx (slice img (X.sizeofDemux + X.sizeofEmitHdr + i * X.sizeofEmitee % u16 + X.offEmiteeSrc) 6)
+          (slice img (X.sizeofDemux + X.sizeofEmitHdr + i * X.sizeofEmitee % u16 + X.offEmiteeDst) 6)
+          (byteAt img (X.sizeofDemux + X.sizeofEmitHdr + i * X.sizeofEmitee % u16 + X.offEmiteePause))
+          (byteAt img (X.sizeofDemux + X.sizeofEmitHdr + i * X.sizeofEmitee % u16 + X.offEmiteeType)) (decide (i + 1 = n))
+        rw [hsp] at h1
+        have h2 := ih (i + 1) r.1 r.2
+        generalize sendCount (emitLoop c st img n k (i + 1) r.1 r.2).2.1 = total at h2 ⊢
+        generalize sendCount r.2 = mid at h1 h2
+        generalize sendCount fx = base at h1 ⊢
+        by_cases hl : i + 1 = n
+        · have e1 : (if decide (i + 1 = n) = true then 1 else 0) = 1 := by simp [hl]
+          have e2 : (if i + 1 < n ∧ n ≤ i + 1 + k then 1 else 0) = 0 := by
+            have : ¬ (i + 1 < n ∧ n ≤ i + 1 + k) := by omega
+            simp [this]
+          have e3 : (if i < n ∧ n ≤ i + (k + 1) then 1 else 0) = 1 := by
+            have : (i < n ∧ n ≤ i + (k + 1)) := by omega
+            simp [this]
+          rw [e1] at h1; rw [e2] at h2; rw [e3]; omega
+        · have e1 : (if decide (i + 1 = n) = true then 1 else 0) = 0 := by simp [hl]
+          have e23 : (if i + 1 < n ∧ n ≤ i + 1 + k then 1 else 0) = (if i < n ∧ n ≤ i + (k + 1) then 1 else 0) := by
+            by_cases hc : i + 1 < n ∧ n ≤ i + 1 + k
+            · have : (i < n ∧ n ≤ i + (k + 1)) := by omega
+              simp [hc, this]
+            · have : ¬ (i < n ∧ n ≤ i + (k + 1)) := by omega
+              simp [hc, this]
+          rw [e1] at h1; rw [e23] at h2; omega
+      · have h2 := ih (i + 1) w fx
+        generalize sendCount (emitLoop c st img n k (i + 1) w fx).2.1 = total at h2 ⊢
+        by_cases hc : i + 1 < n ∧ n ≤ i + 1 + k
+        · have : (i < n ∧ n ≤ i + (k + 1)) := by omega
+          simp only [hc, and_self, if_true] at h2
+          simp only [this, and_self, if_true]; omega
+        · simp only [hc, if_false] at h2
+          split <;> omega
+
+theorem emit_bound (c : Cfg) (w : World) (st : St) (img : List Nat) :
+    sendCount (parseEmit c w st img).fx ≤ (c.mtu - 34) / 14 + 1 := by
+  unfold parseEmit
+  simp only []
+  split
+  · simp [sendCount]
+  · split
+    · simp [sendCount]
+    · simp only [X.sizeofDemux_val, X.sizeofEmitHdr_val, X.sizeofEmitee_val]
+      generalize hn : (if unbe (slice img 32 2) > (c.mtu - 32 - 2) / 14 then (c.mtu - 32 - 2) / 14 else unbe (slice img 32 2)) = n
+      have hle : n ≤ (c.mtu - 34) / 14 := by
+        have e : c.mtu - 32 - 2 = c.mtu - 34 := by omega
+        rw [← hn, e]; split <;> omega
+      have hcount := emitLoop_count c (setActiveMapper { st with seq := fSeq img } (fRealSrc img) (fEthSrc img)) img n n 0 w []
+      have h0 : sendCount ([] : List Fx) = 0 := rfl
+      rw [h0] at hcount
+      refine Nat.le_trans hcount ?_
+      split <;> omega
+
+/-- non-vacuity: a fault-free world exists -/
+example : NoFault {} := ⟨rfl, rfl, rfl, rfl⟩
 
 end LLTD.C06
